@@ -209,8 +209,8 @@ class World(WorldBase):
             "faults": [],
         }
         if batch == "fault":
-            sw["faults"] = rng.sample(["interrupt", "oserror_write", "oserror_open", "short_write", "short_read", "oserror_read"],
-                                      rng.randint(1, 4))
+            sw["faults"] = rng.sample(["interrupt", "interrupt_line", "interrupt_line", "oserror_write", "oserror_open",
+                                       "short_write", "short_read", "oserror_read"], rng.randint(1, 4))
             sw["p_fault"] = rng.choice([0.15, 0.3])
             sw["chunk"] = rng.choice(CHUNKS[:4])
             sw["buf"] = rng.choice(BUFS[:4])
@@ -327,12 +327,18 @@ class World(WorldBase):
             op["op"] = "call"
             op["ad"] = a.id
             op = self.stamp(op, rng)
-            if sw["faults"] and rng.random() < sw["p_fault"] and a.faultable:
+            if sw["faults"] and rng.random() < sw["p_fault"]:
                 kind = rng.choice(sw["faults"])
-                nev = self.dry_events(lambda: self.exec_call(op, dry=True))
-                if nev > 0:
-                    op["fault"] = {"kind": kind, "at": self.pick_fault_event(rng, nev)}
-                    self.ctx.probe("dry_runs")
+                if kind == "interrupt_line":
+                    nln = self.dry_lines(lambda: self.exec_call(op, dry=True))
+                    if nln > 0:
+                        op["fault"] = {"kind": kind, "at": rng.randint(1, nln)}
+                        self.ctx.probe("dry_runs_lines")
+                elif a.faultable:
+                    nev = self.dry_events(lambda: self.exec_call(op, dry=True))
+                    if nev > 0:
+                        op["fault"] = {"kind": kind, "at": self.pick_fault_event(rng, nev)}
+                        self.ctx.probe("dry_runs")
             return op
         return self.stamp(self.ad.gen_mk_snaps(self, rng), rng)
 
@@ -409,7 +415,7 @@ class World(WorldBase):
         # ---- I1: inputs untouched (also after a failed call: the call was made)
         self.check_inputs(tag, op)
         self.observe_globals(tag)
-        failing = fired is not None and fired[0] in ("interrupt", "oserror_write", "oserror_open", "oserror_read")
+        failing = fired is not None and fired[0] in ("interrupt", "interrupt_line", "oserror_write", "oserror_open", "oserror_read")
         if exc is not None and failing:
             # relaxed oracle: the call that was made to fail may fail; its outputs are
             # un-acknowledged, the object it was called on leaves the pool
@@ -559,7 +565,7 @@ class World(WorldBase):
         for o in ops:
             f = o.get("fault")
             out.append((o["op"], o.get("ad"), o.get("obj"), tuple(sorted(self.refs(o.get("args", {})))),
-                        tuple(sorted(o.get("reads", {}))), (f["kind"], min(f["at"], 30)) if f else None))
+                        tuple(sorted(o.get("reads", {}))), (f["kind"], min(f["at"], 30) if f["kind"] != "interrupt_line" else min(f["at"] // 25, 40)) if f else None))
         return tuple(out)
 
     def nontrivial(self, ops):
